@@ -439,6 +439,60 @@ def cleared_sleep(lab):
     return plan(), d
 
 
+def cleared_rewindable(lab):
+    """clear_checkpoint followed by rewindable off/on inside the non-resumable section; cleanup via finalize."""
+    import bluesky.preprocessors as bpp
+    from bluesky.utils import Msg
+
+    d = _std(lab)
+
+    def inner():
+        yield Msg("open_run")
+        yield Msg("checkpoint")
+        yield Msg("clear_checkpoint")
+        yield Msg("null", None, "a")
+        yield Msg("rewindable", None, False)
+        yield Msg("null", None, "b")
+        yield Msg("sleep", None, 0.1)
+        yield Msg("rewindable", None, True)
+        yield Msg("null", None, "c")
+        yield Msg("sleep", None, 0.1)
+        yield Msg("close_run")
+
+    def final():
+        yield Msg("null", None, "cleanup")
+
+    return bpp.finalize_wrapper(inner(), final()), d
+
+
+def status_stage(lab):
+    """A device whose stage() returns a Status, staged with a group and waited for later; plain stage of another device."""
+    from bluesky.utils import Msg
+
+    from vlib.relab import StatusStageDet
+
+    d = _std(lab)
+    sdet = StatusStageDet("sdet", lab, [d["m1"]])
+    d["sdet"] = sdet
+
+    def plan():
+        yield Msg("stage", d["det"])
+        yield Msg("stage", sdet, group="s")
+        yield Msg("open_run")
+        yield Msg("checkpoint")
+        yield Msg("null", None, "before-wait")
+        yield Msg("wait", None, group="s")
+        yield Msg("create", name="primary")
+        yield Msg("read", d["det"])
+        yield Msg("save")
+        yield Msg("close_run")
+        yield Msg("unstage", sdet, group="u")
+        yield Msg("wait", None, group="u")
+        yield Msg("unstage", d["det"])
+
+    return plan(), d
+
+
 def two_runs_cleared(lab):
     """Two consecutive runs; the first contains clear_checkpoint and no later checkpoint; cleanup via finalize."""
     import bluesky.preprocessors as bpp
@@ -662,5 +716,5 @@ def clearing_prelude(lab):
     return [Msg("checkpoint"), Msg("clear_checkpoint"), Msg("null", None, "prelude")]
 
 
-CORPUS = dict(configure_late=configure_late, cleared_sleep=cleared_sleep, wait_move_on=wait_move_on, retry_close=retry_close, interleaved=interleaved, monitor_meta=monitor_meta, monitor_mid=monitor_mid, stubbed=stubbed, sparse=sparse, two_runs_cleared=two_runs_cleared, late_wait=late_wait, norewind_section=norewind_section, configure_mid=configure_mid, count_norewind=count_norewind, declared=declared, double_stage=double_stage, failpause=failpause, defer_failpause=defer_failpause, count2=count2, scan2=scan2, scan3=scan3, rel_scan2=rel_scan2, list_scan2=list_scan2, grid2x2=grid2x2, adaptive=adaptive, tune=tune,
+CORPUS = dict(cleared_rewindable=cleared_rewindable, status_stage=status_stage, configure_late=configure_late, cleared_sleep=cleared_sleep, wait_move_on=wait_move_on, retry_close=retry_close, interleaved=interleaved, monitor_meta=monitor_meta, monitor_mid=monitor_mid, stubbed=stubbed, sparse=sparse, two_runs_cleared=two_runs_cleared, late_wait=late_wait, norewind_section=norewind_section, configure_mid=configure_mid, count_norewind=count_norewind, declared=declared, double_stage=double_stage, failpause=failpause, defer_failpause=defer_failpause, count2=count2, scan2=scan2, scan3=scan3, rel_scan2=rel_scan2, list_scan2=list_scan2, grid2x2=grid2x2, adaptive=adaptive, tune=tune,
               fly1=fly1, bare=bare, cleanup=cleanup, staged_monitor=staged_monitor, nested_runs=nested_runs, flymon=flymon)
